@@ -148,7 +148,9 @@ class C03(Prop):
             "close reasons over 123 bytes), with Hypothesis-drawn masking keys; the bytes passed to sendall by each call are "
             "decoded by the strict independent decoder (exactly one frame, FIN, masked with the drawn key, minimal length form, "
             "RSV as required, control <= 125) and unmasked/inflated back to the caller's payload; invalid calls must raise "
-            "TypeError/ValueError and write nothing; arguments are compared with a deep copy. Exhaustive part: every payload "
+            "TypeError/ValueError and write nothing; arguments are compared with a deep copy. A scheduled stage (C11's deterministic scheduler, every "
+            "thread order x every single preemption) repeats calls of every length class (short, 300 bytes, 70 000-150 000 bytes) "
+            "while another thread or the event loop writes: each call's frame must be on the wire whole. Exhaustive part: every payload "
             "length 0..1100 and 65530..65545 x 4 fixed keys x text/binary. Non-trivial = payload in a 16/64-bit length class or "
             "exactly at 125/126/65535/65536, or an invalid call.")
     assumptions = ("harness/wire.py strict decoder (self-tested)", "json.loads as the inverse of the JSON encoding")
@@ -209,6 +211,8 @@ class C03(Prop):
             "deflate": gen.deflate_opt(),
             # an earlier connection in this process (same WebSocket object or another) and how it ended
             "prelude": gen.prelude(),
+            # a second live connection in the same process (interleaved with this one, or blocked in a send)
+            "companion": gen.companion(),
         })
 
     def enumerations(self, tier):
@@ -229,9 +233,37 @@ class C03(Prop):
                  {"m": "close", "code": 1000, "reason": ["s", "bye"]}]
         battery = [{"calls": calls, "keys": FIXED_KEYS[:1] * 6, "deflate": d}
                    for d in (False, True, {"sb": 15, "cb": 9, "snct": False, "cnct": True})]
-        return [Enumeration("length_sweep_x_4_keys", sweep, exhaustive=True), after_every_prelude(battery)]
+        # "exactly one complete frame" per accepted call also while ANOTHER thread writes: a scheduled stage (the
+        # deterministic scheduler of C11; every thread order x every single preemption) over calls of every length class
+        from props import c11
+
+        class _Sched(c11.C11):
+            id = "C03"
+
+            def scenarios(self_inner):
+                names = ("2x1_text_plain", "2x1_text_ping_deflate", "medium_vs_ping_plain", "large_vs_ping_plain",
+                         "large_vs_text_plain", "large_uncompressed_vs_ping_deflate", "large_incompressible_vs_ping_deflate",
+                         "large_vs_autopong_plain")
+                return {n: c11.SCENARIOS[n] for n in names}
+
+            def bound2(self_inner):
+                return []
+        self._sched = _Sched()
+        inner = self._sched.enumerations(tier)[0]
+
+        def scheduled():
+            for c in inner.make():
+                yield dict(c, sched=True)
+        return [Enumeration("length_sweep_x_4_keys", sweep, exhaustive=True), after_every_prelude(battery),
+                Enumeration("one_complete_frame_per_call_while_another_thread_writes", scheduled, exhaustive=True)]
 
     def run_case(self, case):
+        if case.get("sched"):
+            if not hasattr(self, "_sched"):
+                self.enumerations("quick")
+            inner = dict(case)
+            inner.pop("sched")
+            return self._sched.run_case(inner)
         negotiated = bool(case["deflate"])
         calls = case["calls"]
         results = []
